@@ -28,6 +28,7 @@ import (
 	"github.com/cenkalti/rain/v2/internal/resumer/boltdbresumer"
 	"github.com/cenkalti/rain/v2/internal/storage"
 	"github.com/cenkalti/rain/v2/internal/storage/filestorage"
+	"github.com/cenkalti/rain/v2/internal/verifhook"
 	"github.com/cenkalti/rain/v2/torrent"
 	"github.com/cenkalti/rain/v2/verifx/evlog"
 	"github.com/cenkalti/rain/v2/verifx/gen"
@@ -130,6 +131,16 @@ func leech() {
 	kind, at := "none", int64(0)
 	fmt.Sscanf(os.Getenv("C05_CRASH"), "%s %d", &kind, &at)
 	prov := &crashProvider{root: filepath.Join(dir, "data"), kind: kind, at: at}
+	if pt := os.Getenv("C05_POINT"); kind == "hook" && pt != "" {
+		// in-code crash point: the process dies at the at-th hit of the named point of rain's own code
+		var hits atomic.Int64
+		verifhook.Set(func(name string) {
+			if name == pt && hits.Add(1) == at {
+				fmt.Printf("CRASHPOINT hook %s#%d\n", pt, at)
+				die()
+			}
+		})
+	}
 	cfg := torrent.DefaultConfig
 	_ = cfg
 	s, _, err := newSession(dir, prov)
@@ -222,8 +233,9 @@ func restart() {
 
 type scenario struct {
 	k      int
-	kind   string // entry | partial | exit | timed | strace-pwrite | strace-sync
+	kind   string // entry | partial | exit | timed | strace-pwrite | strace-sync | hook
 	at     int
+	point  string // kind hook: name of the verifhook point inside rain
 	hist   string // plain | stopstart | verify
 	layout *gen.Layout
 }
@@ -396,7 +408,7 @@ func tail(s string, n int) string {
 }
 
 func runScenario(sc scenario) {
-	label := fmt.Sprintf("c05-%d %s@%d hist=%s %s", sc.k, sc.kind, sc.at, sc.hist, sc.layout)
+	label := fmt.Sprintf("c05-%d %s%s@%d hist=%s %s", sc.k, sc.kind, sc.point, sc.at, sc.hist, sc.layout)
 	dir := filepath.Join(run.Work, fmt.Sprintf("s%d", sc.k))
 	os.MkdirAll(dir, 0o755)
 	defer os.RemoveAll(dir)
@@ -432,6 +444,8 @@ func runScenario(sc scenario) {
 	switch sc.kind {
 	case "entry", "partial", "exit":
 		env = append(env, fmt.Sprintf("C05_CRASH=%s %d", sc.kind, sc.at))
+	case "hook":
+		env = append(env, fmt.Sprintf("C05_CRASH=hook %d", sc.at), "C05_POINT="+strings.TrimPrefix(sc.point, ":"))
 	case "strace-pwrite", "strace-sync":
 		call := map[string]string{"strace-pwrite": "pwrite64", "strace-sync": "fdatasync"}[sc.kind]
 		wrap = []string{"strace", "-f", "-qq", "-o", "/dev/null", "-e", "trace=" + call, "-P", filepath.Join(dir, "session.db"), "-e", fmt.Sprintf("inject=%s:signal=KILL:when=%d", call, sc.at)}
@@ -560,7 +574,7 @@ func runScenario(sc scenario) {
 	run.Count("db_inspections", 1)
 	if !dbOK {
 		run.Count("died_before_record_existed", 1)
-		run.Distinct(fmt.Sprintf("%s|%s|norecord", sc.kind, sc.hist))
+		run.Distinct(fmt.Sprintf("%s%s|%s|norecord", sc.kind, sc.point, sc.hist))
 		return
 	}
 	// (2) restart and read claims at the client boundary
@@ -615,7 +629,7 @@ func runScenario(sc scenario) {
 			run.Count("restarts_with_missing_files_checked", 1)
 		}
 	}
-	run.Distinct(fmt.Sprintf("%s|%s|%d|%d|%d", sc.kind, sc.hist, sc.at, count(dbBits), count(disk)))
+	run.Distinct(fmt.Sprintf("%s%s|%s|%d|%d|%d", sc.kind, sc.point, sc.hist, sc.at, count(dbBits), count(disk)))
 	if sc.k%15 == 1 {
 		run.Sample(map[string]any{"case": label, "db_claims": count(dbBits), "disk_pieces": count(disk), "restart_status": status, "restart_claims": count(claims), "died": !finished})
 	}
@@ -659,7 +673,7 @@ func main() {
 		return
 	}
 	run = vx.Begin("C05", "fault_enumeration",
-		"real process deaths: a leecher child on rain's own file storage (counting wrapper) is killed with SIGKILL at the k-th storage write (before / after half of it / after it), at a drawn instant, or at the N-th pwrite64 / fdatasync on the resume database (strace injection), over histories plain / stop+start / verify and 3 layouts (single file, multi-file, multi-file with odd piece length), ResumeWriteInterval 5 ms. After each death: bbolt opens + tx.Check + record readable and equal to the added torrent; database bitfield subset of the pieces whose bytes on disk hash correctly; a second child restarts the client and a reference peer reads its bitfield/have frames: subset of disk truth, also with the first / last / all files deleted before the restart; every data file must be open O_SYNC (/proc/self/fdinfo). distinct = distinct (crash kind, history, point, database pieces, disk pieces)")
+		"real process deaths: a leecher child on rain's own file storage (counting wrapper) is killed with SIGKILL at the k-th storage write (before / after half of it / after it), at the k-th hit of a named point inside rain's own code (build tag verif: after the hash check before the write, after the write before its result is reported, after the bit is set, before/after every resume-record update and periodic stats transaction, after a verification's bitfield is installed), at a drawn instant, or at the N-th pwrite64 / fdatasync on the resume database (strace injection), over histories plain / stop+start / verify and 3 layouts (single file, multi-file, multi-file with odd piece length), ResumeWriteInterval 5 ms. After each death: bbolt opens + tx.Check + record readable and equal to the added torrent; database bitfield subset of the pieces whose bytes on disk hash correctly; a second child restarts the client and a reference peer reads its bitfield/have frames: subset of disk truth, also with the first / last / all files deleted before the restart; every data file must be open O_SYNC (/proc/self/fdinfo). distinct = distinct (crash kind, history, point, database pieces, disk pieces)")
 	vx.StartCanary()
 	layouts := []*gen.Layout{
 		{Name: "single", PieceLen: 32768, Seed: 11, Single: true, Files: []gen.FileSpec{{Length: 420000}}},
@@ -673,6 +687,11 @@ func main() {
 		k++
 	}
 	r := run.Rand("c05", 0)
+	points := []string{"piecewriter.hashed", "piecewriter.written", "torrent.pieceWriteDone.bitSet", "resumer.update.before", "resumer.update.after", "session.updateStats.before", "session.updateStats.after", "torrent.verificationDone.bitfieldSet"}
+	addHook := func(point string, at int, hist string, l *gen.Layout) {
+		scs = append(scs, scenario{k: k, kind: "hook", point: ":" + point, at: at, hist: hist, layout: l})
+		k++
+	}
 	if run.Quick() {
 		for li, l := range layouts {
 			for at := 1; at <= 12; at++ {
@@ -685,6 +704,15 @@ func main() {
 			add("strace-sync", 2+r.Intn(20), "plain", l)
 			add("exit", 3+r.Intn(10), "stopstart", l)
 			add("partial", 3+r.Intn(10), "verify", l)
+			for pi, pt := range points {
+				h := []string{"plain", "stopstart", "verify"}[(pi+li)%3]
+				if pt == "torrent.verificationDone.bitfieldSet" {
+					addHook(pt, 1, "verify", l)
+					continue
+				}
+				addHook(pt, 1+r.Intn(4), h, l)
+				addHook(pt, 5+r.Intn(8), h, l)
+			}
 		}
 	} else {
 		for _, l := range layouts {
@@ -700,6 +728,17 @@ func main() {
 				for i := 0; i < 40; i++ {
 					add("strace-pwrite", 1+r.Intn(120), h, l)
 					add("strace-sync", 1+r.Intn(60), h, l)
+				}
+				for _, pt := range points {
+					n := 14 // the histories write 9-13 pieces; periodic persistence runs more often
+					if pt == "torrent.verificationDone.bitfieldSet" {
+						n = 2
+					} else if strings.HasPrefix(pt, "session.updateStats") {
+						n = 30
+					}
+					for at := 1; at <= n; at++ {
+						addHook(pt, at, h, l)
+					}
 				}
 			}
 		}
